@@ -1,7 +1,8 @@
 #!/bin/bash
 # run_all.sh [tier]: every claimed check on the current tree; prints one line per property
 T=${1:-quick}
-for p in $(cat /verif/tools/claimed.txt); do
-  s=$(date +%s); out=$(cd /verif && ./check $p --tier $T 2>&1); rc=$?; e=$(( $(date +%s) - s ))
+R=$(cd "$(dirname "$0")/.." && pwd)
+for p in $(cat $R/tools/claimed.txt); do
+  s=$(date +%s); out=$(cd $R && ./check $p --tier $T 2>&1); rc=$?; e=$(( $(date +%s) - s ))
   echo "$p rc=$rc ${e}s $(echo "$out" | grep -c '^KNOWN-FINDING') known | $(echo "$out" | grep -E '^(OK|VIOLATION|BROKEN)' | head -2 | cut -c1-160 | tr '\n' ' ')"
 done
